@@ -2,6 +2,7 @@
  * SPDX-License-Identifier: MIT */
 
 #include <dirent.h>
+#include <errno.h>
 #include <fcntl.h>
 #include <inttypes.h>
 #include <limits.h>
@@ -280,6 +281,7 @@ static int
 move_thread_to_final(const char *src, const char *dst)
 {
 	char buffer[1024];
+	int ret = 0;
 
 	FILE *infile = fopen(src, "r");
 
@@ -291,26 +293,45 @@ move_thread_to_final(const char *src, const char *dst)
 	FILE *outfile = fopen(dst, "w");
 
 	if (outfile == NULL) {
-		err("fopen(%s) failed:", src);
+		err("fopen(%s) failed:", dst);
+		fclose(infile);
 		return -1;
 	}
 
 	size_t bytes;
-	while ((bytes = fread(buffer, 1, sizeof(buffer), infile)) > 0)
-		fwrite(buffer, 1, bytes, outfile);
+	while ((bytes = fread(buffer, 1, sizeof(buffer), infile)) > 0) {
+		if (fwrite(buffer, 1, bytes, outfile) != bytes) {
+			err("fwrite(%s) failed:", dst);
+			ret = -1;
+			break;
+		}
+	}
 
-	fclose(outfile);
+	if (ret == 0 && ferror(infile)) {
+		err("fread(%s) failed:", src);
+		ret = -1;
+	}
+
+	if (fclose(outfile) != 0) {
+		err("fclose(%s) failed:", dst);
+		ret = -1;
+	}
+
 	fclose(infile);
 
-	if (remove(src) != 0) {
-		err("remove(%s) failed:", src);
+	/* Keep the source file when the copy is not complete */
+	if (ret != 0)
 		return -1;
-	}
+
+	/* The copy is complete, so a failure here only leaves the temporary
+	 * file behind */
+	if (remove(src) != 0)
+		err("remove(%s) failed:", src);
 
 	return 0;
 }
 
-static void
+static int
 move_thdir_to_final(const char *thdir, const char *thdir_final)
 {
 	DIR *dir;
@@ -318,14 +339,23 @@ move_thdir_to_final(const char *thdir, const char *thdir_final)
 
 	if ((dir = opendir(thdir)) == NULL) {
 		err("opendir %s failed:", thdir);
-		return;
+		return -1;
 	}
 
 	struct dirent *dirent;
 	const char *prefix = "stream.";
 	const char *metaname = "stream.json";
 	int has_meta = 0;
-	while ((dirent = readdir(dir)) != NULL) {
+	while (1) {
+		errno = 0;
+		if ((dirent = readdir(dir)) == NULL) {
+			if (errno != 0) {
+				err("readdir %s failed:", thdir);
+				ret = 1;
+			}
+			break;
+		}
+
 		/* It should only contain stream.* directories, skip others */
 		if (strncmp(dirent->d_name, prefix, strlen(prefix)) != 0)
 			continue;
@@ -364,7 +394,9 @@ move_thdir_to_final(const char *thdir, const char *thdir_final)
 
 	closedir(dir);
 
-	if (has_meta) {
+	/* Only mark the stream as finished in the final directory when all
+	 * the other files arrived complete */
+	if (has_meta && ret == 0) {
 		char meta[PATH_MAX];
 		char meta_final[PATH_MAX];
 		if (snprintf(meta, PATH_MAX, "%s/%s", thdir, metaname) >= PATH_MAX
@@ -377,9 +409,10 @@ move_thdir_to_final(const char *thdir, const char *thdir_final)
 		}
 	}
 
-	/* Warn the user, but we cannot do much at this point */
 	if (ret)
 		err("errors occurred when moving the thread dir to %s", thdir_final);
+
+	return ret ? -1 : 0;
 }
 
 static void
@@ -660,7 +693,10 @@ ovni_thread_free(void)
 
 	if (rproc.move_to_final) {
 		/* The dir rthread.thdir_final must exist in the FS */
-		move_thdir_to_final(rthread.thdir, rthread.thdir_final);
+		if (move_thdir_to_final(rthread.thdir, rthread.thdir_final) != 0) {
+			die("cannot move the thread stream to %s, the complete stream is kept in %s",
+					rthread.thdir_final, rthread.thdir);
+		}
 		try_clean_dir(rthread.thdir);
 	}
 
